@@ -35,6 +35,7 @@ type Program struct {
 	loadErrs       []string
 	byName         map[string]*ssa.Function
 	ifaceContracts map[string]*Harness
+	waitInv        map[*ssa.Function]*ssa.Function // monitor invariant re-assumed after (*sync.Cond).Wait
 }
 
 type Harness struct {
@@ -52,6 +53,10 @@ type Harness struct {
 	NoSafety bool
 	Bounded  string
 	Writes   []string
+	// NonBlocking: (*sync.Cond).Wait ends the path (the contract covers executions that do not block).
+	NonBlocking bool
+	// InlineTargets: functions whose body is executed in this harness even though they have a contract.
+	InlineTargets map[*ssa.Function]bool
 }
 
 var supportPkgs = []string{
@@ -107,6 +112,7 @@ func LoadProgram(repo string, pkgPaths []string, overlay map[string][]byte) (*Pr
 		ssaPkg:         map[string]*ssa.Package{},
 		byName:         map[string]*ssa.Function{},
 		ifaceContracts: map[string]*Harness{},
+		waitInv:        map[*ssa.Function]*ssa.Function{},
 	}
 	for _, p := range pkgs {
 		for _, e := range p.Errors {
@@ -319,6 +325,30 @@ func (P *Program) scanDirectives(pkg *packages.Package, f *ast.File) error {
 				}
 			case "nosafety":
 				mk().NoSafety = true
+			case "nonblocking":
+				mk().NonBlocking = true
+			case "inline-target":
+				for _, tg := range fields[1:] {
+					tgt, err := P.FindFunc(pkg, tg)
+					if err != nil {
+						return fmt.Errorf("%s: %v", P.fset.Position(c.Pos()), err)
+					}
+					if mk().InlineTargets == nil {
+						mk().InlineTargets = map[*ssa.Function]bool{}
+					}
+					mk().InlineTargets[tgt] = true
+				}
+			case "monitor-invariant":
+				// //verif:monitor-invariant <target>: this ghost predicate (parameters bound by name to the
+				// target's parameters) is asserted before and assumed after every (*sync.Cond).Wait in target
+				if len(fields) < 2 {
+					return fmt.Errorf("%s: monitor-invariant needs a target", P.fset.Position(c.Pos()))
+				}
+				tgt, err := P.FindFunc(pkg, fields[1])
+				if err != nil {
+					return fmt.Errorf("%s: %v", P.fset.Position(c.Pos()), err)
+				}
+				P.waitInv[tgt] = fn
 			case "expect-fail":
 				// //verif:expect-fail <obligation-label> : canary, listed in known findings
 				for _, l := range fields[1:] {
